@@ -17,9 +17,9 @@ def isPrefix (pre s : String) : Bool := pre.toList.isPrefixOf s.toList
 
 /-- The sites where an error may end otherwise than in the caller's hands. -/
 def allowed (s : Site) : Bool :=
-  -- sort.Interface's Less cannot return an error: the sorters record it in a field (`hasError`) and
+  -- sort.Interface's Less cannot return an error: the sorters (types with Len, Less, Swap) record it in a field (`hasError`) and
   -- sort_by returns an error when the field is set
-  (s.status == .flagged && isSuffix ").Less" s.fn) ||
+  (s.status == .flagged && (isSuffix ").Less" s.fn || s.sorter)) ||
   -- to_number of a string that is not a number is null (the function specification)
   (s.fn == "jpfToNumber" && s.callee == "strconv.ParseFloat" && s.status == .swallowed) ||
   -- writes into in-memory buffers never fail
